@@ -19,8 +19,18 @@ plus a few timing cases on adversarial families (long runs of one character).
      exception of the xtuml.MetaException family; statements and the built metamodel equal those of a FRESH loader that
      was given only the accepted texts; doubling the length of an adversarial input four times does not multiply the
      time by more than a generous linear factor.
+     AFTERLIFE (robustness patterns 1-3): every text is also given to a FRESH loader, which must classify it the same way
+     and produce the same statements (acceptance is a function of the text, not of the loader's history or of class-level
+     state); building does not change loader.statements; a second build from the same loader ends the same way with an
+     equal metamodel; after the build (whatever its outcome) one more valid text is accepted and the next build equals
+     that of a fresh loader given the accepted texts and that text; when the build raised, `populate` on a metamodel of the
+     caller's raises the same documented exception and leaves the statements alone (that the caller's half-built
+     metamodel may then hold a half-initialised instance is counted, `half_built_metamodels`, not demanded: the property
+     speaks about the loader's content only).
   K  lean/PyxModel/Sql: the model's accepted/rejected classification of every text, the accumulated statement list
-     and the build outcome (ok | parsing | meta) equal the implementation's.  Python's Unicode tables for the
+     and the build outcome (ok | parsing | meta | builtin) equal the implementation's; and what `float()` reads from every
+     INSERT value that has the form of a number (at most 15 digits, at most six of them after the point, any `\\d`
+     characters) equals the model's `parseReal`.  Python's Unicode tables for the
      non-ASCII characters of a case (\\d, \\w, str.upper) are passed to the model as its parameter.
 """
 import re
@@ -114,11 +124,14 @@ def g_guid(rng):
 
 
 def g_number(rng):
-    return rng.choice(['0', '1', '7', '00', '42', '18446744073709551616', '007', str(rng.randint(0, 10 ** rng.randint(1, 30)))])
+    return rng.choice(['0', '1', '7', '00', '42', '18446744073709551616', '007', str(rng.randint(0, 10 ** rng.randint(1, 30))),
+                       '255', '256', '9007199254740991', '9007199254740992', '9007199254740993', '9223372036854775807',
+                       '9223372036854775808', '18446744073709551615'])
 
 
 def g_fraction(rng):
-    return rng.choice(['0.0', '1.5', '3.14159', '0.000001', '10.25', '1.0000000001', '٣.٥', '12.٣', '1.50'])
+    return rng.choice(['0.0', '1.5', '3.14159', '0.000001', '10.25', '1.0000000001', '٣.٥', '12.٣', '1.50', '١٢.٥', '߁.߂', '0.999999',
+                       '9007199254740993.0', '00.5', '255.255', '123456789.123456', '٠.٠'])
 
 
 def g_value_of(rng, core):
@@ -296,7 +309,8 @@ def g_random_token(rng):
         return g_ident(rng)
     if r < 0.75:
         return rng.choice(g_value_of(rng, rng.choice(gen_schema.CORE)))
-    return rng.choice(['(', ')', ',', ';', '-', 'R1', 'R77', '1C', 'M', 'MC', '1', '.', '"', "'", '--', '\\', '1.', '.5', '#', '*', '='])
+    return rng.choice(['(', ')', ',', ';', '-', 'R1', 'R77', '1C', 'M', 'MC', '1', '.', '"', "'", '--', '\\', '1.', '.5', '#', '*', '=',
+                       '&', '$', '@', '1e5', '1.5e5', '1.5E+5', 'inf', 'nan', '-inf', '١٢'])
 
 
 def mutate(rng, toks):
@@ -305,7 +319,7 @@ def mutate(rng, toks):
     n = len(toks)
     idx = [i for i, t in enumerate(toks) if t.strip()] or [0]
     op = rng.choice(['delete', 'duplicate', 'swap', 'replace', 'flip', 'truncate', 'unterminated', 'comment', 'glue',
-                     'insert', 'delete', 'flip', 'swap'])
+                     'insert', 'delete', 'flip', 'swap', 'illegal+syntax'])
     if n == 0:
         return g_random_token(rng)
     i = rng.choice(idx) if idx else 0
@@ -340,6 +354,14 @@ def mutate(rng, toks):
             toks.insert(i, rng.choice(["'", '"', "''", '"\\']))
     elif op == 'comment':
         toks.insert(i, rng.choice(['--', '-- ', '-']))
+    elif op == 'illegal+syntax':
+        # TWO edits: an illegal character, and a syntax error before or (mostly) after it in the same text
+        j = rng.choice(idx)
+        toks[i] = rng.choice(['&', '$', '#', '@', '\x00', '?']) + (toks[i] if rng.random() < 0.5 else '')
+        if j != i:
+            toks[j] = '' if rng.random() < 0.7 else g_random_token(rng)
+        elif rng.random() < 0.5:
+            return ''.join(toks)[:max(1, len(''.join(toks)) - rng.randint(1, 4))]
     elif op == 'glue':
         # remove the separators around a token
         for k in (i + 1, i - 1):
@@ -358,7 +380,19 @@ def g_family(rng):
         return ' '.join(g_value_of(rng, t))
 
     base = rng.choice(['i', 'x', 'Id', 'Key', 'mro', 'name'])
-    fam = rng.choice(['case-attrs', 'case-attrs', 'pyattr'])
+    fam = rng.choice(['case-attrs', 'case-attrs', 'pyattr', 'many'])
+    if fam == 'many':
+        # counts at the 8-bit boundary: values of one INSERT (class inferred or declared), attributes of one class, statements
+        n = rng.choice([255, 256, 257])
+        kind = rng.choice(['A', 'Wide'])
+        r = rng.random()
+        if r < 0.35:
+            return 'INSERT INTO %s VALUES (%s);' % (kind, ', '.join(val(rng.choice(['INTEGER', 'STRING'])) for _ in range(n)))
+        if r < 0.7:
+            ty = rng.choice(core)
+            text = 'CREATE TABLE %s (%s);' % (kind, ', '.join('a%d %s' % (k, ty) for k in range(n)))
+            return text + ' INSERT INTO %s VALUES (%s);' % (kind, ', '.join(val(ty) for _ in range(n - rng.choice([0, 0, 1]))))
+        return 'CREATE TABLE %s (i INTEGER);' % kind + ''.join(' INSERT INTO %s VALUES (%d);' % (kind, k) for k in range(n))
     if fam == 'case-attrs':
         a1 = base
         a2 = g_case(rng, base)
@@ -534,6 +568,31 @@ def top_level_semicolons(text):
     return n
 
 
+NUMLIKE = re.compile(r'-?(\d+)(?:\.(\d+))?\Z')
+AFTER_TEXT = 'CREATE TABLE ZZ_After (a INTEGER, b STRING); INSERT INTO ZZ_After VALUES (1, \'x\');'
+
+
+def _real_comparable(v):
+    """value texts on which float() and the six-decimal numerals of the model can be compared exactly"""
+    mt = NUMLIKE.match(v)
+    return bool(mt) and len(mt.group(1)) + len(mt.group(2) or '') <= 15 and len(mt.group(2) or '') <= 6
+
+
+def _reals_obs(statements):
+    out = [Sym('reals')]
+    for st in statements:
+        if type(st).__name__ != 'CreateInstanceStmt':
+            continue
+        for v in st.values:
+            if isinstance(v, str) and _real_comparable(v):
+                try:
+                    neg, micro = gen_schema.dec6_parts(float(v))
+                except ValueError:
+                    continue
+                out.append([v, Sym('T') if neg else Sym('F'), micro])
+    return out
+
+
 def _run_timing(case):
     fam, n = case['timing'], case['n']
     fails = []
@@ -597,11 +656,29 @@ def run_impl(case):
             outs.append(Sym('other'))
             fail('input-raises:%s' % type(e).__name__, 'input(%r) raised %s: %s' % (text[:300], type(e).__name__, str(e)[:200]))
         dt = time.process_time() - t0
+        # acceptance is a function of the TEXT: a fresh loader classifies it the same way and parses the same statements
+        if str(outs[-1]) in ('accepted', 'parsing'):
+            probe = x.ModelLoader()
+            try:
+                probe.input(text)
+                pacc = 'accepted'
+            except x.ParsingException:
+                pacc = 'parsing'
+            except Exception as e:
+                pacc = 'other:' + type(e).__name__
+            if pacc != str(outs[-1]):
+                fail('input-depends-on-history', 'text %d %r is %s by a loader that saw %r before, and %s by a fresh loader' % (
+                    k, text[:300], outs[-1], [t[:80] for t in texts[:k]], pacc))
+            elif pacc == 'accepted' and _deep(probe.statements) != _deep(loader.statements[len(before):]):
+                fail('input-depends-on-history', 'text %d %r gives other statements on a loader with history than on a fresh one' % (
+                    k, text[:300]))
         if dt > 2.0 + 2e-4 * len(text):
             fail('time-budget', 'input of %d characters took %.2fs: %r' % (len(text), dt, text[:100]))
         stats['stream_' + case['streams'][k]] = stats.get('stream_' + case['streams'][k], 0) + 1
         stats['in_' + str(outs[-1])] = stats.get('in_' + str(outs[-1]), 0) + 1
     stmts = [gen_schema.stmt_dump(s) for s in loader.statements]
+    reals = _reals_obs(loader.statements)
+    deep_before_build = _deep(loader.statements)
     outcome, m, exc = _build(loader)
     dunder = _has_dunder(loader.statements)
     if outcome == 'builtin':
@@ -638,10 +715,78 @@ def run_impl(case):
                          'texts at %s: %r' % (d, [t[:120] for t in texts]))
         except Exception as e:
             fail('fresh-loader-raises:%s' % type(e).__name__, 'a fresh loader raised %s on texts the first loader accepted' % type(e).__name__)
-    # a second build from the same loader must end the same way (the loader's content is not consumed)
-    obs = [outs, stmts, Sym(outcome)]
+    if outcome != 'builtin':
+        _afterlife(x, loader, accepted, outcome, m, deep_before_build, fail, stats)
+    obs = [outs, stmts, Sym(outcome), reals]
     nontrivial = (0 < len(accepted) < len(texts)) or outcome in ('parsing', 'meta')
     return {'obs': obs, 'd_fail': fails, 'nontrivial': nontrivial, 'key': dumps(texts), 'stats': stats}
+
+
+def _afterlife(x, loader, accepted, outcome, m, deep_before_build, fail, stats):
+    """keep using the loader (and what it built) after the build, whatever its outcome"""
+    if _deep(loader.statements) != deep_before_build:
+        fail('build-changed-statements', 'build_metamodel (%s) changed loader.statements: %r' % (outcome, [t[:200] for t in accepted]))
+        return
+    # the loader's content is not consumed: a second build ends the same way
+    outcome2, m2, exc2 = _build(loader)
+    if outcome2 != outcome:
+        fail('second-build-differs', 'the first build_metamodel gives %s, the second one from the same loader %s: %r' % (
+            outcome, outcome2, [t[:200] for t in accepted]))
+        return
+    d1 = _safe_dump(m) if outcome == 'ok' else None
+    if outcome == 'ok':
+        d = gen_schema.diff(d1, _safe_dump(m2))
+        if d:
+            fail('second-build-differs', 'two builds from one loader differ at %s: %r' % (d, [t[:200] for t in accepted]))
+    else:
+        # a rejected populate() on a metamodel of the caller's: same documented exception, statements untouched, and the
+        # half-built metamodel still answers every observer
+        mu = x.MetaModel(x.IntegerGenerator())
+        try:
+            loader.populate(mu)
+            got = 'ok'
+        except x.ParsingException:
+            got = 'parsing'
+        except x.MetaException:
+            got = 'meta'
+        except Exception as e:
+            got = 'builtin:' + type(e).__name__
+        if got != outcome:
+            fail('populate-differs-from-build', 'build_metamodel ends in %s, populate on a new metamodel in %s: %r' % (
+                outcome, got, [t[:200] for t in accepted]))
+        elif isinstance(_safe_dump(mu), str):
+            # observation only: after a populate() that raised, the caller's metamodel may hold a half-initialised instance
+            # (MetaClass.new appends to storage before the defaults are set); the property does not speak about it
+            stats['half_built_metamodels'] = 1
+        stats['afterlife_rejected_populate'] = 1
+        if _deep(loader.statements) != deep_before_build:
+            fail('build-changed-statements', 'a rejected populate changed loader.statements: %r' % ([t[:200] for t in accepted],))
+            return
+    # one more text after the build: the loader goes on as a fresh one that saw the accepted texts and this one
+    try:
+        loader.input(AFTER_TEXT)
+        fresh = x.ModelLoader()
+        for t in accepted:
+            fresh.input(t)
+        fresh.input(AFTER_TEXT)
+    except Exception as e:
+        fail('input-after-build-raises:%s' % type(e).__name__, 'a valid text fed after the build (%s) raised %s: %r' % (
+            outcome, type(e).__name__, [t[:200] for t in accepted]))
+        return
+    o3, m3, _ = _build(loader)
+    o4, m4, _ = _build(fresh)
+    stats['afterlife'] = 1
+    if o3 != o4:
+        fail('loader-after-build-differs', 'after a build (%s) and one more text the loader builds %s, a fresh loader with the same '
+             'texts %s: %r' % (outcome, o3, o4, [t[:200] for t in accepted]))
+    elif o3 == 'ok':
+        d = gen_schema.diff(_safe_dump(m3), _safe_dump(m4))
+        if d:
+            fail('loader-after-build-differs', 'after a build (%s) and one more text the built metamodel differs from that of a fresh '
+                 'loader at %s: %r' % (outcome, d, [t[:200] for t in accepted]))
+        elif d1 is not None and gen_schema.diff(d1, _safe_dump(m)):
+            fail('earlier-metamodel-changed', 'the metamodel of the first build changed while the loader was used further: %r' % (
+                [t[:200] for t in accepted],))
 
 
 # --------------------------------------------------------------------------- model side
@@ -672,6 +817,9 @@ def model_line(case):
 
 
 def model_obs(case, ans):
+    # the model lists every value `parseReal` reads; the comparison is restricted to the texts float() reads exactly
+    if isinstance(ans, list) and len(ans) == 4 and isinstance(ans[3], list):
+        ans = ans[:3] + [[ans[3][0]] + [e for e in ans[3][1:] if isinstance(e, list) and e and _real_comparable(e[0])]]
     return ans
 
 
